@@ -1,6 +1,7 @@
 package c19
 
 import (
+	"context"
 	"errors"
 	"fmt"
 	"sort"
@@ -77,6 +78,18 @@ func runThrottle(e *vlib.Env) vlib.Result {
 					return want.outs, want.err
 				})
 				msg := message.NewMessage(fmt.Sprintf("%s-tm%d", e.ID(), i), nil)
+				// the rate limit does not depend on the message: some messages arrive with a context that has already
+				// ended (cancelled, or an expired deadline as an outer Timeout shorter than the period would leave)
+				switch i % 4 {
+				case 1:
+					cctx, cancel := context.WithCancel(context.Background())
+					cancel()
+					msg.SetContext(cctx)
+				case 3:
+					dctx, cancel := context.WithDeadline(context.Background(), time.Now().Add(-time.Second))
+					defer cancel()
+					msg.SetContext(dctx)
+				}
 				outs, err := h(msg)
 				same := err == want.err && len(outs) == len(want.outs)
 				for j := 0; same && j < len(outs); j++ {
